@@ -271,7 +271,8 @@ Proof.
   - exact IH.
   - pose proof (map_traces m m' g IHg) as Eg. pose proof (map_traces m m' r IHr) as Er.
     simpl print_trace. rewrite map_cons. change (konst m (out_effect m')) with (out_effect m). f_equal.
-    rewrite !map_app, concat_map, Eg.
+    rewrite !map_app, map_sep_join, Eg.
+    change (map (konst m) [out_effect m']) with [out_effect m].
     destruct r as [|r0 r'].
     + reflexivity.
     + cbv iota. rewrite map_app, map_sep_join, Er. destruct g; reflexivity.
